@@ -3,13 +3,16 @@
 What is decided by which engine:
 
   z3 (Engine A, symbolic text of <= N characters over the working alphabet)
-    progress            forall non-empty text: one step of SLY's tokenize loop is ERROR, a `literals` character with
-                        extent 1, or a rule match with 1 <= extent <= |text|  (no empty match => no endless loop)
-    no-empty-rule       no token rule, tried on its own (even if shadowed by an earlier rule, even at the end of the text),
-                        matches the empty string
+    rule-extents  N=44  every token rule, tried on its own at the start of any text (even if shadowed by an earlier rule,
+                        even on the empty text), either does not match or matches >= 1 characters: no rule matches
+                        the empty string.  lex1's extent is one of these rule extents, 1 for a `literals` character, or
+                        ERROR, so this already implies progress of the scan.
+    progress      N=16  the same statement on the composed step: forall non-empty text, lex1 is ERROR, a `literals`
+                        character with extent 1, or a rule match with 1 <= extent <= |text|
   CrossHair (Engine B, the real Python)
-    error-hook          forall tokens (symbolic text <= 3 characters, symbolic index / lineno): ODataLexer.error raises
-                        TokenizingException, a subclass of ODataSyntaxError and ODataException, carrying the token
+    error-hook          for every token built from symbolic picks out of pools of values / indexes / line numbers (the message
+                        formats the token, so free symbolic values would be realised one by one and never close):
+                        ODataLexer.error raises TokenizingException, a subclass of ODataSyntaxError and ODataException
     action:<KIND>       forall strings x of <= 6 arbitrary code points - a *superset* of the token's language restricted to
                         that length - the live token action returns the token, of the same type, whose .value is an
                         ast._Node, and raises nothing.  A counterexample only counts if the real lexer hands x to this very
@@ -42,8 +45,13 @@ from ..common import REPO, Run
 from ..harness import Item, source
 from . import c06 as _v
 
-N_LEX = 16
-ACTION_LEN = 6
+N_LEX = 44     # per-rule extents and the solver-produced lexemes
+N_STEP = 16    # the composed lex1 step (priority chain over all rules)
+ACTION_LENS = (6, 3, 2)     # a token action is tried on all strings of <= 6 code points; if CrossHair cannot close that
+ACTION_LEN = ACTION_LENS[0]  # (e.g. str.upper() forks per character) the bound is lowered to 3, then 2, and reported
+ERR_VALUES = ("", "x", "'", "''", "\x00", "\n", "a b", "é", "\ud800", "\U0001d7d8", "%" * 40, "{}", "%s", "\\")
+ERR_INDEX = (0, 1, 65535)
+ERR_LINENO = (1, 1000)
 _LEXER = _OL()
 
 
@@ -55,9 +63,10 @@ def t_action(kind: str, x: str) -> bool:
     return out is tok and out.type == kind and isinstance(out.value, _ast._Node)
 
 
-def t_error(x: str, index: int, lineno: int) -> bool:
+def t_error(iv: int, ii: int, il: int) -> bool:
+    """symbolic picks from pools (the exception text formats the token, which makes CrossHair realise free values)"""
     tok = _Token()
-    tok.type, tok.value, tok.lineno, tok.index = "ERROR", x, lineno, index
+    tok.type, tok.value, tok.lineno, tok.index = "ERROR", ERR_VALUES[iv], ERR_LINENO[il], ERR_INDEX[ii]
     try:
         r = _LEXER.error(tok)
     except _exc.TokenizingException as e:
@@ -83,46 +92,46 @@ def _tokenize_outcome(text: str) -> str:
     return "tokens " + " ".join(t.type for t in toks)
 
 
-def _action_layer(run: Run, sess: rx.Session, progress: bool) -> None:
+def _action_layer(run: Run, progress: bool) -> None:
+    spec = rx.LexSpec.live()
     kinds = sorted(_OL._token_funcs)
-    items: List[Item] = [Item("error_hook", "x0: str, x1: int, x2: int", "len(x0) <= 3 and 0 <= x1 <= 70000 and 1 <= x2 <= 1000",
-                              "t_error(x0, x1, x2)", family="lexer-step:error-hook",
-                              describe="ODataLexer.error raises TokenizingException (an ODataException) for any token")]
-    for k in kinds:
-        items.append(Item(f"action_{k}", "x0: str", f"len(x0) <= {ACTION_LEN}", f"t_action({k!r}, x0)", family="lexer-step:action",
-                          describe=f"token action {k}: value is an ast._Node, nothing raised, for every string of <= {ACTION_LEN} "
-                                   "code points (superset of the token's language)"))
+    err = Item("error_hook", "x0: int, x1: int, x2: int",
+               f"0 <= x0 < {len(ERR_VALUES)} and 0 <= x1 < {len(ERR_INDEX)} and 0 <= x2 < {len(ERR_LINENO)}",
+               "t_error(x0, x1, x2)", family="lexer-step:error-hook",
+               describe=f"ODataLexer.error raises TokenizingException (an ODataException) for every token from the pools "
+                        f"value x index x lineno = {len(ERR_VALUES)} x {ERR_INDEX} x {ERR_LINENO}")
+
+    def action_item(k: str, n: int) -> Item:
+        return Item(f"action_{k}_{n}", "x0: str", f"len(x0) <= {n}", f"t_action({k!r}, x0)", family="lexer-step:action",
+                    describe=f"token action {k}: value is an ast._Node, nothing raised, for every string of <= {n} "
+                             "code points (superset of the token's language)")
+
     run.encode("odata_query.grammar.ODataLexer.error", "odata_query.exceptions.TokenizingException",
                "every function in odata_query.grammar.ODataLexer._token_funcs (" + ", ".join(kinds) + ")")
-    _v.reachability(run, HEADER, items)
-    timeout = 60 if run.tier == "quick" else 300
+    timeout = 25 if run.tier == "quick" else 300
+    per_kind = {k: [action_item(k, n) for n in ACTION_LENS] for k in kinds}
+    items: List[Item] = [err] + [i for k in kinds for i in per_kind[k]]
+    _v.reachability(run, HEADER, [err] + [per_kind[k][0] for k in kinds])
     with chx.HarnessModule(source(HEADER, items)) as hm:
         res = hm.run([i.name for i in items], per_condition_timeout=timeout, progress=progress)
-        for itm in items:
-            r = res[itm.name]
+
+        def counterexample(itm: Item, r, kind: Optional[str]) -> None:
             oname = f"{itm.name}:{itm.describe}"
-            if r.state == chx.CONFIRMED:
-                run.discharged(oname, itm.family, r.seconds)
-                continue
-            if r.state not in (chx.POST_FAIL, chx.EXEC_ERR):
-                run.inconclusive(oname, itm.family, {"state": r.state, "message": r.message[:300]}, r.seconds)
-                continue
             hm.replay(r)
             if not r.reproduced:
                 run.harness_error(oname, itm.family, {"message": r.message, "replay": r.replay_outcome}, r.seconds)
-                continue
-            if itm.name == "error_hook":
+                return
+            if kind is None:
                 run.violation(oname, {"harness": "t_error", "args": list(r.args), "concrete_replay": r.replay_outcome},
-                              f"ODataLexer.error on token value {r.args[0]!r}: {r.replay_outcome}", itm.family, r.seconds)
-                continue
-            kind = itm.name[len("action_"):]
+                              f"ODataLexer.error on token value {ERR_VALUES[r.args[0]]!r}: {r.replay_outcome}", itm.family, r.seconds)
+                return
             x = r.args[0]
-            real = sess.spec.real_lex1(x) if x else ("EOF", 0)
+            real = spec.real_lex1(x) if x else ("EOF", 0)
             if real != (kind, len(x)):
                 run.inconclusive(oname, itm.family, {"why": "the action fails on a string outside the token's language; the "
                                                             "over-approximation by arbitrary strings is too coarse to decide",
                                                      "string": x, "outcome": r.replay_outcome, "real_lex1": list(real)}, r.seconds)
-                continue
+                return
             outcome = _tokenize_outcome(x)
             if outcome.startswith(("FOREIGN", "NON-NODE")):
                 run.violation(oname, {"text": x, "tokenize_outcome": outcome, "action_replay": r.replay_outcome,
@@ -130,6 +139,28 @@ def _action_layer(run: Run, sess: rx.Session, progress: bool) -> None:
                               f"tokenize({x!r}): {outcome}", itm.family, r.seconds)
             else:
                 run.harness_error(oname, itm.family, {"string": x, "action": r.replay_outcome, "tokenize": outcome}, r.seconds)
+
+        r = res[err.name]
+        if r.state == chx.CONFIRMED:
+            run.discharged(f"{err.name}:{err.describe}", err.family, r.seconds)
+        elif r.state in (chx.POST_FAIL, chx.EXEC_ERR):
+            counterexample(err, r, None)
+        else:
+            run.inconclusive(f"{err.name}:{err.describe}", err.family, {"state": r.state, "message": r.message[:300]}, r.seconds)
+        for k in kinds:
+            # the same action at three string-length bounds, analysed side by side: the largest decided bound is reported
+            failed = next((i for i in per_kind[k] if res[i.name].state in (chx.POST_FAIL, chx.EXEC_ERR)), None)
+            if failed is not None:
+                counterexample(failed, res[failed.name], k)
+                continue
+            ok = next((i for i in per_kind[k] if res[i.name].state == chx.CONFIRMED), None)
+            spent = sum(res[i.name].seconds for i in per_kind[k])
+            if ok is not None:
+                run.discharged(f"{ok.name}:{ok.describe}", ok.family, spent)
+            else:
+                last = per_kind[k][-1]
+                run.inconclusive(f"{last.name}:{last.describe}", last.family,
+                                 {"state": res[last.name].state, "message": res[last.name].message[:300]}, spent)
 
 
 def _lexeme_witnesses(run: Run, sess: rx.Session, N: int, progress: bool) -> None:
@@ -185,29 +216,52 @@ def _lexeme_witnesses(run: Run, sess: rx.Session, N: int, progress: bool) -> Non
         run.notes.append(f"token rule {k} has no lexeme of <= {N} characters that is lexed as {k}: unreachable (shadowed) within the bound")
 
 
+MUTANTS = [
+    rx.Mutant("NULL rule with an empty alternative", rx.edit_replace("(null)", "(null|)"), ["lexer-step:rule-extent:NULL", "lexer-step:progress"]),
+    rx.Mutant("WS rule may match nothing", rx.edit_replace(r"(?P<WS>\s+)", r"(?P<WS>\s*)"), ["lexer-step:rule-extent:WS", "lexer-step:progress"]),
+]
+
+
+def _step_obligations(sess: rx.Session, N: int, n_step: int) -> List[rx.Obligation]:
+    obs = [rx.ob_rule_extents(sess, f"lexer-step:rule-extent:{nm}", "lexer-step:rule-extents", N, nm)
+           for nm in sess.engines[N].names]
+    obs.append(rx.ob_progress(sess, "lexer-step:progress", "lexer-step", n_step))
+    return obs
+
+
 def lexer_layer(run: Run, sess: Optional[rx.Session] = None, progress: Optional[bool] = None) -> Optional[rx.Session]:
     """Adds the lexer-step obligations of C10 to `run`.  Returns the session, or None if the lexer is not encodable
     (an inconclusive obligation is recorded then; the caller should exit with code 2)."""
     if progress is None:
         progress = bool(os.environ.get("VERIF_PROGRESS"))
+    try:
+        rx.LexSpec.live()
+    except rx.NotEncodable as e:
+        print(f"[{run.pid}] the current lexer cannot be encoded: {e}", flush=True)
+        run.inconclusive("lexer-step:encode", "lexer-step", f"not encodable: {e}")
+        return None
+    actions = _v.SubRun(run, lambda r: _action_layer(r, progress))   # CrossHair part, overlaps with the z3 part
     if sess is None:
         try:
-            sess = rx.Session(run, {N_LEX})
+            sess = rx.Session(run, {N_LEX, N_STEP})
+            sess.fill(run)
+            sess.validate(run, str(REPO / "tests"), 400 if run.tier == "quick" else 4000)
         except rx.NotEncodable as e:
             print(f"[{run.pid}] the current lexer cannot be encoded: {e}", flush=True)
             run.inconclusive("lexer-step:encode", "lexer-step", f"not encodable: {e}")
+            actions.join()
             return None
-        sess.fill(run)
-        sess.validate(run, str(REPO / "tests"), 400 if run.tier == "quick" else 4000)
     N = N_LEX if N_LEX in sess.engines else max(sess.engines)
-    run.bounds.update({"lexer_step_text_length_N": N, "token_action_string_length": ACTION_LEN,
-                       "error_hook_token_text_length": 3})
+    n_step = N_STEP if N_STEP in sess.engines else min(sess.engines)
+    run.bounds.update({"lexer_step_text_length_N": N, "token_action_string_length": f"{ACTION_LENS[0]} (lowered to 3 / 2 per action "
+                       "when CrossHair cannot close; the bound reached is in the obligation name)",
+                       "error_hook": "symbolic picks from pools of token values / indexes / line numbers"})
     run.outside.append(f"texts longer than {N} characters for the lexer-step obligations (lex1 is stateless, so one step from an "
                        "arbitrary suffix is an inductive step; rule matches longer than N are outside)")
-    actions = _v.SubRun(run, lambda r: _action_layer(r, sess, progress))
-    obs = [rx.ob_progress(sess, "lexer-step:progress", "lexer-step", N),
-           rx.ob_no_empty_rule(sess, "lexer-step:no-rule-matches-empty", "lexer-step", N)]
-    sess.drive(obs, timeout=120 if run.tier == "quick" else 600, progress=progress)
+    sess.drive(_step_obligations(sess, N, n_step), timeout=120 if run.tier == "quick" else 600, progress=progress)
+    if run.tier == "thorough" or os.environ.get("VERIF_SELFTEST"):
+        rx.selftest(run, sess.spec, MUTANTS, {N, n_step}, [], lambda s2: _step_obligations(s2, N, n_step), timeout=120,
+                    progress=progress)
     _lexeme_witnesses(run, sess, N, progress)
     actions.join()
     return sess
